@@ -60,6 +60,7 @@ def regenerate():
     """returns (ok, list of failing generator names, log)"""
     with Lock("gen"):
         rc, out = sh([sys.executable, os.path.join(VERIF, "tools", "gen_model.py")], timeout=120)
+    sh([sys.executable, os.path.join(VERIF, "tools", "gen_extract.py")], timeout=60)
     failed = re.findall(r"^GEN-ERROR (\w+):", out, re.M)
     return rc == 0, failed, out
 
